@@ -6,9 +6,12 @@
 (* kfac/base_preconditioner.py): WHICH collective every rank issues, on    *)
 (* WHICH group, from WHICH root, for every public call of a history.       *)
 (*                                                                         *)
-(* Rank r = d * M + m (row-major over (data, model)).  A layer is          *)
-(* [par ("input": row-parallel, the INPUT is sharded | "output": column-   *)
-(* parallel, the OUTPUT is sharded), bias, iw (inverse worker)].           *)
+(* Rank r = (p * D + d) * M + m (row-major over (pipe, data, model)).  A   *)
+(* layer is [stage (the pipeline stage that owns it), par ("input": row-   *)
+(* parallel, the INPUT is sharded | "output": column-parallel, the OUTPUT  *)
+(* is sharded), bias, iw (inverse worker, a rank of the stage)].  Stages   *)
+(* are independent K-FAC instances except for the world-level collectives  *)
+(* of saving / loading and the creation of process groups.                 *)
 (*   - the sharded side is gathered over the model-parallel group before   *)
 (*     its second moment is taken; its factor is then averaged over the    *)
 (*     data-parallel group BY THE PRIMARY RANKS ONLY (the rank of each     *)
@@ -42,18 +45,22 @@ Next == ci < Len(Cases) /\ ci' = ci + 1
 Spec == Init /\ [][Next]_ci
 C == Cases[ci]
 
-W(c) == c.D * c.M
+W(c) == c.P * c.D * c.M
 World(c) == 0..(W(c) - 1)
-Dc(c, r) == r \div c.M
+Pc(c, r) == r \div (c.D * c.M)
+Dc(c, r) == (r % (c.D * c.M)) \div c.M
 Mc(c, r) == r % c.M
-MP(c, r) == {q \in World(c) : Dc(c, q) = Dc(c, r)}
-DP(c, r) == {q \in World(c) : Mc(c, q) = Mc(c, r)}
+Stage(c, r) == {q \in World(c) : Pc(c, q) = Pc(c, r)}
+MP(c, r) == {q \in Stage(c, r) : Dc(c, q) = Dc(c, r)}
+DP(c, r) == {q \in Stage(c, r) : Mc(c, q) = Mc(c, r)}
 NL(c) == Len(c.layers)
+Mine(c, r, i) == c.layers[i].stage = Pc(c, r)      \* layer i lives on r's stage
+NMine(c, r) == Cardinality({i \in 1..NL(c) : Mine(c, r, i)})
 
-\* per-rank views of the assignment (GptAssign.tla restricted to one stage)
-Primary(c, r, i) == Dc(c, r) * c.M + Mc(c, c.layers[i].iw)
+\* per-rank views of the assignment (GptAssign.tla)
+Primary(c, r, i) == (Pc(c, r) * c.D + Dc(c, r)) * c.M + Mc(c, c.layers[i].iw)
 IsGradWorker(c, r, i) == Dc(c, r) = Dc(c, c.layers[i].iw)
-Src(c, r, i) == Dc(c, c.layers[i].iw) * c.M + Mc(c, r)
+Src(c, r, i) == (Pc(c, r) * c.D + Dc(c, c.layers[i].iw)) * c.M + Mc(c, r)
 
 Op(kind, grp, root, cls, at) ==
     [kind |-> kind, grp |-> grp, root |-> root, cls |-> cls, at |-> at]
@@ -68,7 +75,8 @@ ReduceSharded(c, r, i, at) ==
     IF r = Primary(c, r, i) /\ c.D > 1
     THEN <<Op("all_reduce", DP(c, r), -1, "f", at)>> ELSE <<>>
 ReduceReplicated(c, r, at) ==
-    IF W(c) > 1 THEN <<Op("all_reduce", World(c), -1, "f", at)>> ELSE <<>>
+    IF c.D * c.M > 1 THEN <<Op("all_reduce", Stage(c, r), -1, "f", at)>>
+    ELSE <<>>
 ReduceA(c, r, i, at) ==
     IF c.layers[i].par = "input" THEN ReduceSharded(c, r, i, at)
     ELSE ReduceReplicated(c, r, at)
@@ -80,11 +88,13 @@ ReduceG(c, r, i, at) ==
 Forward(c, r, red, at) ==
     Cat([k \in 1..NL(c) |->
         LET i == c.fwd[k] IN
+        IF ~Mine(c, r, i) THEN <<>> ELSE
         (IF c.layers[i].par = "input" THEN Gather(c, r, "x", at) ELSE <<>>)
         \o (IF red THEN ReduceA(c, r, i, at) ELSE <<>>)])
 Backward(c, r, red, at) ==
     Cat([k \in 1..NL(c) |->
         LET i == c.fwd[NL(c) + 1 - k] IN
+        IF ~Mine(c, r, i) THEN <<>> ELSE
         (IF c.layers[i].par = "output" THEN Gather(c, r, "x", at) ELSE <<>>)
         \o (IF red THEN ReduceG(c, r, i, at) ELSE <<>>)])
 Micro(c, r, j, at) ==
@@ -99,7 +109,8 @@ StepReduce(c, r, h, at) ==
     IF c.inhook \/ ~h.factorStep THEN <<>>
     ELSE Cat([k \in 1..NL(c) |->
             LET i == NL(c) + 1 - k IN
-            ReduceA(c, r, i, at) \o ReduceG(c, r, i, at)])
+            IF ~Mine(c, r, i) THEN <<>>
+            ELSE ReduceA(c, r, i, at) \o ReduceG(c, r, i, at)])
 Precondition(c, r, i, at) ==
     LET l == c.layers[i] IN
     IF c.M = 1 THEN <<>>
@@ -116,6 +127,7 @@ GradBcast(c, r, i, at) ==
 StepGrads(c, r, at) ==
     Cat([k \in 1..NL(c) |->
         LET i == NL(c) + 1 - k IN
+        IF ~Mine(c, r, i) THEN <<>> ELSE
         (IF IsGradWorker(c, r, i) THEN Precondition(c, r, i, at) ELSE <<>>)
         \o GradBcast(c, r, i, at)])
 Clip(c, r, at) ==
@@ -151,7 +163,10 @@ Derived(c) == [r \in 1..W(c) |-> Prog(c, r - 1)]
 \* group in the constructor when neither existing group covers the stage,
 \* a gloo world group for the object gather of state_dict
 NGProg(c, r) ==
-    LET Ctor(at) == IF c.D > 1 /\ c.M > 1 THEN <<[ranks |-> World(c), at |-> at]>>
+    LET Ctor(at) == IF c.D > 1 /\ c.M > 1
+                    THEN [p \in 1..c.P |->
+                            [ranks |-> {q \in World(c) : Pc(c, q) = p - 1},
+                             at |-> at]]
                     ELSE <<>>
     IN Ctor(0) \o Cat([k \in 1..Len(c.hist) |->
         LET h == c.hist[k] IN
@@ -165,12 +180,13 @@ NGSame(c, N) == \A r1, r2 \in 1..W(c) : N[r1] = N[r2]
 (* ---- clauses over per-rank issue sequences ------------------------------ *)
 \* sharded-side factors are averaged over a data-parallel group by primary
 \* ranks only; replicated-side factors over all ranks of the stage
-IsPrimaryOfSome(c, r) == \E i \in 1..NL(c) : r = Primary(c, r, i)
+IsPrimaryOfSome(c, r) ==
+    \E i \in 1..NL(c) : Mine(c, r, i) /\ r = Primary(c, r, i)
 FactorReductionGroups(c, P) ==
     \A r \in World(c) : \A j \in DOMAIN P[r + 1] :
         LET o == P[r + 1][j] IN
         (o.kind = "all_reduce" /\ o.cls = "f") =>
-            \/ o.grp = World(c)
+            \/ o.grp = Stage(c, r)
             \/ (o.grp = DP(c, r) /\ IsPrimaryOfSome(c, r))
 \* gathers and scatters of shards stay inside the rank's model-parallel group
 ShardTrafficInModelGroup(c, P) ==
@@ -183,8 +199,10 @@ GradientBroadcasts(c, P) ==
     \A r \in World(c) : \A j \in DOMAIN P[r + 1] :
         LET o == P[r + 1][j] IN
         o.kind = "broadcast" =>
-            \/ (o.grp = MP(c, r) /\ \E i \in 1..NL(c) : o.root = Primary(c, r, i))
-            \/ (o.grp = DP(c, r) /\ \E i \in 1..NL(c) : o.root = Src(c, r, i))
+            \/ (o.grp = MP(c, r) /\ \E i \in 1..NL(c) :
+                    Mine(c, r, i) /\ o.root = Primary(c, r, i))
+            \/ (o.grp = DP(c, r) /\ \E i \in 1..NL(c) :
+                    Mine(c, r, i) /\ o.root = Src(c, r, i))
 \* on every step every data group receives every layer exactly once
 StepIdx(c) == {k \in DOMAIN c.hist : c.hist[k].act = "step"}
 CountSel(s, Test(_)) == Len(SelectSeq(s, Test))
@@ -192,13 +210,14 @@ EveryLayerBroadcastOnce(c, P) ==
     c.D > 1 =>
     \A r \in World(c) : \A k \in StepIdx(c) :
         CountSel(P[r + 1], LAMBDA o : o.at = k /\ o.kind = "broadcast"
-                                      /\ o.grp = DP(c, r)) = NL(c)
+                                      /\ o.grp = DP(c, r)) = NMine(c, r)
 \* only the inverse worker's model group gathers / scatters gradients
 OnlyGradWorkersPrecondition(c, P) ==
     \A r \in World(c) : \A k \in StepIdx(c) :
         CountSel(P[r + 1], LAMBDA o : o.at = k /\ o.kind = "reduce_scatter")
-            >= Cardinality({i \in 1..NL(c) : IsGradWorker(c, r, i) /\ c.M > 1})
-        /\ (({i \in 1..NL(c) : IsGradWorker(c, r, i)} = {}) =>
+            >= Cardinality({i \in 1..NL(c) : Mine(c, r, i)
+                               /\ IsGradWorker(c, r, i) /\ c.M > 1})
+        /\ (({i \in 1..NL(c) : Mine(c, r, i) /\ IsGradWorker(c, r, i)} = {}) =>
               CountSel(P[r + 1], LAMBDA o : o.at = k
                         /\ o.kind \in {"reduce_scatter"}) = 0)
 \* saving and loading: the same world-level collectives on every rank (C18)
